@@ -1,35 +1,87 @@
 /*
  * Shadow <stdatomic.h> for the C06 harnesses (DESIGN.md 2.5): placed first on
  * the include path when compiling the *unmodified* library sources, it wraps
- * every generic atomic operation src/memory.c uses with a call to
- * vsched_point(kind, address) immediately before the real, sequentially
- * consistent operation.  The harness defines vsched_point (schedule point of
- * the controlled scheduler, or injected delay in the real-thread runs).
+ * every generic atomic operation (the ones src/memory.c uses today and the ones
+ * a rewrite of it would plausibly use: exchange, compare-exchange, fetch-or/and/xor
+ * and all the _explicit forms) with a call to vsched_point(kind, address)
+ * immediately before the real operation.  The harness defines vsched_point
+ * (schedule point of the controlled scheduler, or injected delay in the
+ * real-thread runs).
+ *
+ * The operands are evaluated BEFORE the schedule point of the operation itself, so
+ * that in atomic_store(&c, atomic_load(&c) + 1) other threads can run between the
+ * load and the store.  The operation itself is the compiler builtin with the
+ * memory order the library asked for.
  */
 #ifndef VERIF_SHIM_STDATOMIC_H
 #define VERIF_SHIM_STDATOMIC_H
 #include_next <stdatomic.h>
 
 void vsched_point(int kind, const volatile void *addr);
-enum { VSP_LOAD = 1, VSP_ADD, VSP_SUB, VSP_TAS, VSP_CLEAR, VSP_STORE, VSP_YIELD, VSP_FREE, VSP_CLRCB, VSP_OP };
+enum { VSP_LOAD = 1, VSP_ADD, VSP_SUB, VSP_TAS, VSP_CLEAR, VSP_STORE, VSP_YIELD, VSP_FREE, VSP_CLRCB, VSP_OP, VSP_XCHG, VSP_CAS, VSP_RMW };
 
+#undef atomic_load_explicit
+#define atomic_load_explicit(p, mo) \
+    __extension__ ({ __typeof__(p) vs_p_ = (p); vsched_point(VSP_LOAD, vs_p_); __atomic_load_n(vs_p_, (mo)); })
 #undef atomic_load
-#define atomic_load(p) \
-    (vsched_point(VSP_LOAD, (p)), atomic_load_explicit((p), memory_order_seq_cst))
+#define atomic_load(p) atomic_load_explicit((p), memory_order_seq_cst)
+
+#undef atomic_store_explicit
+#define atomic_store_explicit(p, v, mo) \
+    __extension__ ({ __typeof__(p) vs_p_ = (p); __typeof__(__atomic_load_n((p), 0)) vs_v_ = (v); \
+        vsched_point(VSP_STORE, vs_p_); __atomic_store_n(vs_p_, vs_v_, (mo)); })
 #undef atomic_store
-#define atomic_store(p, v) \
-    (vsched_point(VSP_STORE, (p)), atomic_store_explicit((p), (v), memory_order_seq_cst))
+#define atomic_store(p, v) atomic_store_explicit((p), (v), memory_order_seq_cst)
+
+#define VS_RMW_(builtin, kind, p, v, mo) \
+    __extension__ ({ __typeof__(p) vs_p_ = (p); __typeof__(__atomic_load_n((p), 0)) vs_v_ = (v); \
+        vsched_point((kind), vs_p_); builtin(vs_p_, vs_v_, (mo)); })
+#undef atomic_fetch_add_explicit
+#define atomic_fetch_add_explicit(p, v, mo) VS_RMW_(__atomic_fetch_add, VSP_ADD, p, v, mo)
 #undef atomic_fetch_add
-#define atomic_fetch_add(p, v) \
-    (vsched_point(VSP_ADD, (p)), atomic_fetch_add_explicit((p), (v), memory_order_seq_cst))
+#define atomic_fetch_add(p, v) atomic_fetch_add_explicit((p), (v), memory_order_seq_cst)
+#undef atomic_fetch_sub_explicit
+#define atomic_fetch_sub_explicit(p, v, mo) VS_RMW_(__atomic_fetch_sub, VSP_SUB, p, v, mo)
 #undef atomic_fetch_sub
-#define atomic_fetch_sub(p, v) \
-    (vsched_point(VSP_SUB, (p)), atomic_fetch_sub_explicit((p), (v), memory_order_seq_cst))
+#define atomic_fetch_sub(p, v) atomic_fetch_sub_explicit((p), (v), memory_order_seq_cst)
+#undef atomic_fetch_or_explicit
+#define atomic_fetch_or_explicit(p, v, mo) VS_RMW_(__atomic_fetch_or, VSP_RMW, p, v, mo)
+#undef atomic_fetch_or
+#define atomic_fetch_or(p, v) atomic_fetch_or_explicit((p), (v), memory_order_seq_cst)
+#undef atomic_fetch_and_explicit
+#define atomic_fetch_and_explicit(p, v, mo) VS_RMW_(__atomic_fetch_and, VSP_RMW, p, v, mo)
+#undef atomic_fetch_and
+#define atomic_fetch_and(p, v) atomic_fetch_and_explicit((p), (v), memory_order_seq_cst)
+#undef atomic_fetch_xor_explicit
+#define atomic_fetch_xor_explicit(p, v, mo) VS_RMW_(__atomic_fetch_xor, VSP_RMW, p, v, mo)
+#undef atomic_fetch_xor
+#define atomic_fetch_xor(p, v) atomic_fetch_xor_explicit((p), (v), memory_order_seq_cst)
+#undef atomic_exchange_explicit
+#define atomic_exchange_explicit(p, v, mo) VS_RMW_(__atomic_exchange_n, VSP_XCHG, p, v, mo)
+#undef atomic_exchange
+#define atomic_exchange(p, v) atomic_exchange_explicit((p), (v), memory_order_seq_cst)
+
+#define VS_CAS_(weak, p, e, d, s, f) \
+    __extension__ ({ __typeof__(p) vs_p_ = (p); __typeof__(e) vs_e_ = (e); __typeof__(__atomic_load_n((p), 0)) vs_d_ = (d); \
+        vsched_point(VSP_CAS, vs_p_); __atomic_compare_exchange_n(vs_p_, vs_e_, vs_d_, (weak), (s), (f)); })
+#undef atomic_compare_exchange_strong_explicit
+#define atomic_compare_exchange_strong_explicit(p, e, d, s, f) VS_CAS_(0, p, e, d, s, f)
+#undef atomic_compare_exchange_strong
+#define atomic_compare_exchange_strong(p, e, d) VS_CAS_(0, p, e, d, memory_order_seq_cst, memory_order_seq_cst)
+#undef atomic_compare_exchange_weak_explicit
+#define atomic_compare_exchange_weak_explicit(p, e, d, s, f) VS_CAS_(1, p, e, d, s, f)
+#undef atomic_compare_exchange_weak
+#define atomic_compare_exchange_weak(p, e, d) VS_CAS_(1, p, e, d, memory_order_seq_cst, memory_order_seq_cst)
+
+#undef atomic_flag_test_and_set_explicit
+#define atomic_flag_test_and_set_explicit(p, mo) \
+    __extension__ ({ __typeof__(p) vs_p_ = (p); vsched_point(VSP_TAS, vs_p_); (_Bool)__atomic_test_and_set((void *)vs_p_, (mo)); })
 #undef atomic_flag_test_and_set
-#define atomic_flag_test_and_set(p) \
-    (vsched_point(VSP_TAS, (p)), atomic_flag_test_and_set_explicit((p), memory_order_seq_cst))
+#define atomic_flag_test_and_set(p) atomic_flag_test_and_set_explicit((p), memory_order_seq_cst)
+#undef atomic_flag_clear_explicit
+#define atomic_flag_clear_explicit(p, mo) \
+    __extension__ ({ __typeof__(p) vs_p_ = (p); vsched_point(VSP_CLEAR, vs_p_); __atomic_clear((void *)vs_p_, (mo)); })
 #undef atomic_flag_clear
-#define atomic_flag_clear(p) \
-    (vsched_point(VSP_CLEAR, (p)), atomic_flag_clear_explicit((p), memory_order_seq_cst))
+#define atomic_flag_clear(p) atomic_flag_clear_explicit((p), memory_order_seq_cst)
 
 #endif
